@@ -73,6 +73,40 @@ class LineCoverage:
         return out
 
 
+class FuncCoverage:
+    """Audit aid (VERIF_FUNCCOV=<dir>): which functions of tenpy were entered at all (PY_START + DISABLE, ~no overhead)."""
+    TOOL = 3
+
+    def __init__(self):
+        self.seen = set()
+        self.active = False
+
+    def _start(self, code, offset):
+        fn = code.co_filename
+        i = fn.rfind('/tenpy/')
+        if i >= 0:
+            self.seen.add((fn[i + 1:], code.co_qualname))
+        return sys.monitoring.DISABLE
+
+    def start(self):
+        mon = sys.monitoring
+        try:
+            mon.use_tool_id(self.TOOL, 'vf-funccov')
+        except ValueError:
+            return
+        mon.register_callback(self.TOOL, mon.events.PY_START, self._start)
+        mon.set_events(self.TOOL, mon.events.PY_START)
+        self.active = True
+
+    def stop(self):
+        if self.active:
+            mon = sys.monitoring
+            mon.set_events(self.TOOL, 0)
+            mon.register_callback(self.TOOL, mon.events.PY_START, None)
+            mon.free_tool_id(self.TOOL)
+            self.active = False
+
+
 def patch_everywhere(orig, wrapper, packages=('tenpy', )):
     """Rebind every module/class attribute that `is` orig to wrapper.  Returns number of rebinds."""
     n = 0
